@@ -176,6 +176,29 @@ class GenEval(object):
         self.cls = cls
         self.methods = repo.methods(cls)
 
+    def class_consts(self):
+        """{name: value expression} of the class-level assignments of the registry class and its bases in MODEL / BASE (nearest first)."""
+        if getattr(self, "_consts", None) is None:
+            out, todo, seen = {}, [self.cls], set()
+            while todo:
+                c = todo.pop(0)
+                if c.name in seen:
+                    continue
+                seen.add(c.name)
+                for st in c.body:
+                    if isinstance(st, ast.Assign) and len(st.targets) == 1 and isinstance(st.targets[0], ast.Name):
+                        out.setdefault(st.targets[0].id, st.value)
+                    elif isinstance(st, ast.AnnAssign) and isinstance(st.target, ast.Name) and st.value is not None:
+                        out.setdefault(st.target.id, st.value)
+                for b in c.bases:
+                    bn = b.id if isinstance(b, ast.Name) else (b.attr if isinstance(b, ast.Attribute) else None)
+                    for rel in (MODEL, BASE):
+                        if bn and self.repo.has_cls(rel, bn):
+                            todo.append(self.repo.cls(rel, bn))
+                            break
+            self._consts = out
+        return self._consts
+
     def stream(self, meth, args=(), kwargs=None, depth=0):
         """-> list of yielded values, or the string 'raises'."""
         from ..peval import Evaluator, Obj, Unknown, Raised, Returned
@@ -202,6 +225,11 @@ class GenEval(object):
 
             def _attr(ev, base, attr):
                 if base is SELF or (isinstance(base, Obj) and base.name == "self"):
+                    # a class-level constant (dispatch table `_subset_by_class = ((Junction, "_junctions"), ...)`, also class-private `__x`)
+                    # is evaluated; every other attribute of self is an instance container
+                    k = outer.class_consts().get(attr)
+                    if k is not None:
+                        return Ev({params[0]: SELF}).ev(k)
                     return Sym(("set", attr))
                 return NotImplemented
 
@@ -294,6 +322,12 @@ class GenEval(object):
                     raise Unknown("star arguments: %s" % unparse(n))
                 if isinstance(f, ast.Name) and f.id in ("str", "repr", "type") and f.id not in ev.env:
                     return "<text>"
+                if isinstance(f, ast.Name) and f.id == "getattr" and f.id not in ev.env and 2 <= len(n.args) <= 3 and not n.keywords:
+                    # getattr(self, "<name>"[, default]) with a name that evaluates to a concrete string is self.<name>
+                    o, nm = ev.ev(n.args[0]), ev.ev(n.args[1])
+                    if isinstance(o, Obj) and o.name == "self" and isinstance(nm, str):
+                        return ev._attr(o, nm)
+                    raise Unknown("getattr on %r / %r" % (o, nm))
                 if isinstance(f, ast.Name) and f.id in ("list", "tuple", "iter") and f.id not in ev.env and len(n.args) == 1 and not n.keywords:
                     v = ev.ev(n.args[0])
                     return v if isinstance(v, Sym) else ev.iterate(v, n.args[0])
@@ -1270,6 +1304,10 @@ WITNESSES = [
          new="        user = (self._name, 'tank')\n        self._curve_reg.remove_usage(self._vol_curve_name, user)\n        self._curve_reg.add_usage(name, user)\n", rule="R-C14-1"),
     dict(name="remove-usage-raises-on-absent-record", file=BASE, old='        if not key or key not in self._usage:\n            return\n        for arg in args:\n            self._usage[key].discard(arg)\n',
          new='        if not key:\n            return\n        for arg in args:\n            self._usage[key].discard(arg)\n', rule="R-C14-2"),
+    dict(name="call-class-table-getattr-preserving", file=MODEL, old='        elif node_type == Junction:\n            for node_name in self._junctions:\n                yield node_name, self._data[node_name]\n        elif node_type == Tank:\n            for node_name in self._tanks:\n                yield node_name, self._data[node_name]\n        elif node_type == Reservoir:\n            for node_name in self._reservoirs:\n                yield node_name, self._data[node_name]\n        else:\n            raise RuntimeError("node_type, " + str(node_type) + ", not recognized.")\n',
+         new='            return\n        for node_class, subset in self._subset_by_class:\n            if node_type == node_class:\n                for node_name in getattr(self, subset):\n                    yield node_name, self._data[node_name]\n                return\n        raise RuntimeError("node_type, " + str(node_type) + ", not recognized.")\n', also=[('    def __call__(self, node_type=None):\n', '    _subset_by_class = ((Junction, "_junctions"), (Tank, "_tanks"), (Reservoir, "_reservoirs"))\n\n    def __call__(self, node_type=None):\n')], silent=True),
+    dict(name="call-class-table-getattr-swapped", file=MODEL, old='        elif node_type == Junction:\n            for node_name in self._junctions:\n                yield node_name, self._data[node_name]\n        elif node_type == Tank:\n            for node_name in self._tanks:\n                yield node_name, self._data[node_name]\n        elif node_type == Reservoir:\n            for node_name in self._reservoirs:\n                yield node_name, self._data[node_name]\n        else:\n            raise RuntimeError("node_type, " + str(node_type) + ", not recognized.")\n',
+         new='            return\n        for node_class, subset in self._subset_by_class:\n            if node_type == node_class:\n                for node_name in getattr(self, subset):\n                    yield node_name, self._data[node_name]\n                return\n        raise RuntimeError("node_type, " + str(node_type) + ", not recognized.")\n', also=[('    def __call__(self, node_type=None):\n', '    _subset_by_class = ((Junction, "_junctions"), (Tank, "_reservoirs"), (Reservoir, "_tanks"))\n\n    def __call__(self, node_type=None):\n')], rule="R-C14-5"),
     dict(name="rename-local-preserving", file=MODEL, old="            node = self._data.pop(key)\n            self._junctions.discard(key)",
          new="            node = self._data.pop(key)\n            self._junctions.discard(key)\n            _n = node", silent=True),
 ]
